@@ -139,7 +139,9 @@ def _dup_cases():
         for active in ('rr', 'stream', 'channel'):
             for second in ('REQUEST_RESPONSE', 'REQUEST_STREAM', 'REQUEST_CHANNEL', 'REQUEST_FNF'):
                 for link in ('bytes', 'messages'):
-                    out.append({'real': real, 'active': active, 'second': second, 'link': link})
+                    for fragmented in (False, True):
+                        out.append({'real': real, 'active': active, 'second': second, 'link': link,
+                                    'second_fragmented': fragmented})
     return out
 
 
@@ -171,7 +173,15 @@ async def _dup(rng, case):
     g = {'type': case['second'], 'sid': sid, 'data': make_payload(2, DIR_REQUEST, 0, 12, 0).data, 'metadata': None}
     if case['second'] in ('REQUEST_STREAM', 'REQUEST_CHANNEL'):
         g['n'] = 5
-    peer.send(g)
+    if case.get('second_fragmented'):
+        # the duplicate arrives in two fragments: request frame with FOLLOWS, then a PAYLOAD carrying the rest
+        whole = g['data']
+        g['data'] = whole[:7]
+        g['follows'] = True
+        peer.send(g)
+        peer.send({'type': 'PAYLOAD', 'sid': sid, 'next': True, 'complete': False, 'data': whole[7:], 'metadata': None})
+    else:
+        peer.send(g)
     await asyncio.sleep(1.0)
     errors = [x for x in peer.frames('ERROR', sid, since)]
     second_handled = [e for e in world.events if e['kind'] == 'handler' and e.get('iid') == 2]
